@@ -58,9 +58,9 @@ LEAN = {"module": "Pygom.Props.C17",
                      "Pygom.C17.quantileLinear_le_maxL", "Pygom.C17.par_order_binds_by_name_partial",
                      "Pygom.C17.par_order_direct_loss_counterexample", "Pygom.C17.parOrderBy_binds_by_name",
                      "Pygom.C17.get_forgets_state", "Pygom.C17.continue_reads_only_N_finalTol", "Pygom.C17.genLoop_ignores_initial_dist"]}
-BUDGET = {"quick": {"runs": 72, "direct": 10, "malformed": 8, "nanregion": 10, "N": (30, 45), "Gmax": 3},
-          "thorough": {"runs": 800, "direct": 80, "malformed": 40, "nanregion": 100, "N": (30, 60), "Gmax": 4}}
-RULE = ("real ABC runs on SIR_norm/SIR/SIS/SEIR with SquareLoss/NormalLoss/PoissonLoss, 1-3 inferred parameters (+ optionally an "
+BUDGET = {"quick": {"runs": 72, "direct": 10, "malformed": 8, "nanregion": 10, "rare": 3, "N": (30, 45), "Gmax": 3},
+          "thorough": {"runs": 800, "direct": 80, "malformed": 40, "nanregion": 100, "rare": 20, "N": (30, 60), "Gmax": 4}}
+RULE = ("(plus 3 quick / 20 thorough RARE-ACCEPTANCE cases: one free parameter, 3-4 particles, one generation, tolerance = third smallest of 3000 pilot costs, i.e. about a thousand proposals per particle) real ABC runs on SIR_norm/SIR/SIS/SEIR with SquareLoss/NormalLoss/PoissonLoss, 1-3 inferred parameters (+ optionally an "
         "inferred initial state, a population constraint), uniform/gamma/normal priors, log-scale flags, Parameter list in "
         "random order; schedules: rejection, tolerance list, quantile, MNN (M<N-1 and M=N-1), followed by 0-2 "
         "continue_posterior_sample calls (next_tol, shrunk final_tol, tolerance list, deliberately too large); every run "
@@ -165,6 +165,8 @@ def _schedule(rng, budget, allow_continue=True):
             c["tol_form"] = rng.choice(LIST_FORMS)
         elif isinstance(t, dict) and ("pilot" in t or "shrink" in t):
             c["tol_form"] = rng.choice(SCALAR_FORMS)
+        elif isinstance(t, dict) and "pilot_rare" in t:
+            c["tol_form"] = "float"
         else:
             c["tol_form"] = "asis"
     return calls
@@ -264,6 +266,27 @@ def gen_nanregion(rng, budget):
     return case
 
 
+def gen_rare(rng, budget):
+    """ROUND E: a generation whose per-trial acceptance probability is about 1/1000, so that some particle needs more than a
+    thousand consecutive proposals (rejection ABC with a tight tolerance against a wide prior).  One free parameter, a handful of
+    particles, one generation; the tolerance is the third smallest of 3000 pilot costs.  Whatever the code does when a particle
+    takes that long (the source carries a "should be some timeout on this" note), every stored distance must be below the
+    tolerance RECORDED for its generation."""
+    case = gen_run(rng, budget)
+    model = rng.choice(["SIR", "SIS"])
+    vals, x0, t = EC.draw_setup(rng, model, n_obs=rng.randint(6, 9))
+    name = rng.choice(["beta", "gamma"])
+    v = vals[name]
+    plist = [{"name": name, "prior": ["unif", round(0.1 * v, 5), round(6.0 * v, 5)], "logscale": False}]
+    calls = [{"cont": False, "N": rng.randint(3, 4), "M": None, "q": None, "G": 1, "tol": {"pilot_rare": 2}, "tol_form": "float"}]
+    case.update({"kind": "create_loss", "model": model, "values": vals, "x0": x0, "t": t, "loss": "SquareLoss", "obs": ["I"], "sigma": None,
+                 "noise": "noisy", "params": plist, "constraint": None, "calls": calls, "rare": True, "pilot_size": 3000,
+                 "max_trials": 30000, "max_seconds": 60.0, "extras": {"second_abc": False, "deepcopy": False}})
+    case.pop("direct", None)
+    case.pop("nanregion", None)
+    return case
+
+
 def gen_malformed(rng, budget):
     case = gen_run(rng, budget)
     N = case["calls"][0]["N"]
@@ -298,6 +321,8 @@ def make_cases(rng, tier, budget):
         cases.append(gen_malformed(random.Random(rng.getrandbits(64)), budget))
     for _ in range(budget.get("nanregion", 0)):          # drawn last: the earlier cases are the same as before
         cases.append(gen_nanregion(random.Random(rng.getrandbits(64)), budget))
+    for _ in range(budget.get("rare", 0)):
+        cases.append(gen_rare(random.Random(rng.getrandbits(64)), budget))
     return cases
 
 
@@ -449,8 +474,10 @@ def make_data(case):
 # ---------------------------------------------------------------------------------------------------------
 
 class Recorder:
-    def __init__(self, abc, pgabc, nparam):
+    def __init__(self, abc, pgabc, nparam, max_trials=None, max_seconds=None):
         self.abc, self.pgabc, self.nparam = abc, pgabc, nparam
+        self.max_trials = max_trials or MAX_TRIALS
+        self.max_seconds = max_seconds or MAX_SECONDS
         self.events = []          # flat event list of the current _perform_generation call
         self.slots = []           # one entry per _perform_generation call
         self.ntrials = 0
@@ -466,7 +493,7 @@ class Recorder:
                 v = _o(x)
                 if _k == 0:
                     self.ntrials += 1
-                    if self.ntrials > MAX_TRIALS or (self.ntrials % 50 == 0 and time.time() - self.t0 > MAX_SECONDS):
+                    if self.ntrials > self.max_trials or (self.ntrials % 50 == 0 and time.time() - self.t0 > self.max_seconds):
                         raise _Budget()
                 self.events.append(("d", _k, float(x), float(v)))
                 return v
@@ -541,6 +568,9 @@ def resolve_tol(spec, pilot, abc):
     if isinstance(spec, dict):
         if "pilot" in spec:
             return float(np.quantile(pilot, spec["pilot"]))
+        if "pilot_rare" in spec:
+            # the k-th smallest pilot cost: per-trial acceptance probability of about k / len(pilot)
+            return float(sorted(pilot)[int(spec["pilot_rare"])])
         if "pilot_list" in spec:
             return [float(np.quantile(pilot, p)) for p in spec["pilot_list"]]
         ft = float(getattr(abc, "final_tol", np.inf))
@@ -667,7 +697,7 @@ def run_case(case):
     rs = np.random.RandomState(case["seed"] ^ 0x5A5A5A)
     pilot = []
     pobj = rec_cost.scratch()
-    for _ in range(50):
+    for _ in range(int(case.get("pilot_size", 50))):
         v = [prior_sample(p["prior"], rs) for p in plist]
         try:
             # (nan-region cases: the pilot costs without BaseLoss.cost as well - a wrong 0.0 there would put the tolerances at 0)
@@ -679,7 +709,7 @@ def run_case(case):
     if len(pilot) < 10:
         return {"nontrivial": False, "mismatches": mism, "violations": viol, "tags": tags + ["pilot-failed"]}
 
-    rec = Recorder(abc, pgmod, nparam)
+    rec = Recorder(abc, pgmod, nparam, max_trials=case.get("max_trials"), max_seconds=case.get("max_seconds"))
     rec.install()
     lean_calls, stream, py_calls = [], [], []
     kept, run_id = [], 0
